@@ -361,6 +361,11 @@ var Items = []Item{
 
 	// ---- look-alikes: user definitions that share a name with a builtin ----
 	{ID: "user-func-len", Decls: "func len(x uint64) uint64 {\n\treturn x + 100\n}", Core: "r = len(3)", Known: "c02BuiltinLookalike"},
+	{ID: "user-func-len-in-slice-bound", Decls: "func len(s []uint64) uint64 {\n\treturn 2\n}", Setup: "s := make([]uint64, 4)\n\ts[1] = 7\n\ts[3] = 9", Core: "t := s[1:len(s)]\n\tfor _, v := range t {\n\t\tr += v + 1\n\t}", NoCtx: true},
+	{ID: "user-func-len-in-loop-bound", Decls: "func len(s []uint64) uint64 {\n\treturn 2\n}", Setup: "s := make([]uint64, 4)", Core: "for i := uint64(0); i < len(s); i++ {\n\t\tr += 1\n\t}", NoCtx: true},
+	{ID: "local-closure-named-len", Setup: "s := make([]uint64, 4)\n\ts[1] = 7\n\ts[3] = 9", Core: "len := func(x []uint64) uint64 {\n\t\treturn 2\n\t}\n\tt := s[1:len(s)]\n\tfor _, v := range t {\n\t\tr += v + 1\n\t}", NoCtx: true},
+	{ID: "slice-to-len-of-same", Setup: "s := make([]uint64, 4)\n\ts[1] = 7\n\ts[3] = 9", Core: "t := s[1:len(s)]\n\tfor _, v := range t {\n\t\tr += v + 1\n\t}", NoCtx: true},
+	{ID: "slice-to-len-of-other", Setup: "s := make([]uint64, 4)\n\ts[1] = 7\n\ts[3] = 9\n\tu := make([]uint64, 2)", Core: "t := s[1:len(u)]\n\tfor _, v := range t {\n\t\tr += v + 1\n\t}", NoCtx: true},
 	{ID: "user-func-cap", Decls: "func cap(x uint64) uint64 {\n\treturn x + 100\n}", Core: "r = cap(3)", Known: "c02BuiltinLookalike"},
 	{ID: "user-func-append", Decls: "func append(x uint64, y uint64) uint64 {\n\treturn x*10 + y\n}", Core: "r = append(3, 4)", Known: "c02BuiltinLookalike"},
 	{ID: "user-func-copy", Decls: "func copy(x uint64, y uint64) uint64 {\n\treturn x*10 + y\n}", Core: "r = copy(3, 4)", Known: "c02BuiltinLookalike"},
